@@ -47,7 +47,7 @@ def floors(tier):
     return {"evaluations": int(n * .8), "distinct": int(n * .7),
             "counters": {"contract:ref_denotation": n, "contract:ref_text": int(n * .9), "references_judged_open": int(n * .22), "references_judged_reloaded": int(n * .22),
                          "cross_table_references": n // 5, "label_references_printed": 200, "qualified_references_printed": n // 10, "minimality_checked": n // 20,
-                         "fixture_references": 3000, "configurations": 30, "duplicate_table_name_configs": 5, "header_label_edits": 20, "colon_node_ranges": 200},
+                         "fixture_references": 3000, "configurations": 30, "duplicate_table_name_configs": 5, "header_label_edits": 20, "colon_node_ranges": 200, "references_involving_tables_added_after_first_read": 100},
             "hist_sizes": {"ref_shape": 4, "flags": 12}}
 
 
@@ -313,10 +313,10 @@ def config_case(case, rec):
         return
     rec.count("configurations")
 
-    def read_all(d, view):
+    def read_all(d, view, exp=None):
         dn, lb = doc_naming(d)
         events = nsan.local("ref_events")
-        for si, ti, host in expect:
+        for si, ti, host in (expect if exp is None else exp):
             t = d.sheets[si].tables[ti]
             del events[:]
             c2 = dict(case)
@@ -372,6 +372,46 @@ def config_case(case, rec):
     if edited:
         rec.count("header_label_edits", edited)
         read_all(doc, "open-after-label-edit")
+    # tables added after references were printed once: a reference into (and out of) a new table names it like any other
+    expect_new = []
+    try:
+        with warnings.catch_warnings():
+            warnings.simplefilter("ignore")
+            s0 = doc.sheets[0]
+            have = {t.name.lower() for t in s0.tables}
+            new = []
+            for nm in ("Added A", "Added B"):
+                if nm.lower() not in have:
+                    nt = s0.add_table(nm, num_rows=R, num_cols=C)
+                    for r in range(R):
+                        for c in range(C):
+                            nt.write(r, c, float(r + c))
+                    new.append((0, len(s0.tables) - 1, nt))
+            if len(new) == 2:
+                uu2 = {t._table_id: NumbersUUID(m.table_base_id(t._table_id)).protobuf4 for _, _, t in new}
+                olds = [t for _, _, t in tabs]
+                plan_ = [(new[0], new[1][2]), (new[1], new[0][2]), (new[0], rng.choice(olds)), (new[1], rng.choice(olds))]
+                for k_, ((si, ti, t), target) in enumerate(plan_):
+                    host = (1 + k_ // 2, 1 + k_ % 2 + 2 * (k_ // 2))
+                    fl = tuple(rng.random() < .35 for _ in range(4))
+                    uuid = uu2.get(target._table_id) or uu[target._table_id]
+                    if rng.random() < .5:
+                        node = F.cellref(T, host, rng.randrange(R), rng.randrange(C), fl[0], fl[2], uuid)
+                    else:
+                        r0 = rng.randrange(R - 1)
+                        c0 = rng.randrange(C - 1)
+                        node = F.tract(T, host, r0, rng.randint(r0 + 1, R - 1), c0, rng.randint(c0 + 1, C - 1), fl, uuid)
+                    fn = T.ASTNodeArchive(AST_node_type=T.FUNCTION_NODE, AST_function_node_index=168, AST_function_node_numArgs=1)
+                    fa = TSCE.FormulaArchive(AST_node_array=T(AST_node=[node, fn]))
+                    t.cell(*host)._formula_id = m._formulas.lookup_key(t._table_id, fa)
+                    expect_new.append((si, ti, host))
+    except Exception as e:  # noqa: BLE001 - V9
+        rec.build_failure(f"tables added after the first read: {type(e).__name__}: {str(e)[:80]}")
+        expect_new = []
+    if expect_new:
+        rec.count("references_involving_tables_added_after_first_read", len(expect_new))
+        read_all(doc, "open-after-add-table", expect_new)
+        expect.extend(expect_new)
     path = os.path.join(docs.scratch_dir(), f"c09-{case['rseed']}.numbers")
     try:
         docs.save(doc, path)
